@@ -6,7 +6,7 @@ from nacl.signing import SigningKey
 from ..core import Result, Ctx
 from .. import vmrun, impl
 from ..builders import Bench, try_build, hexof, replay_scripts
-from ..gen import values as V
+from ..gen import values as V, programs as G
 
 RULE = ("random keys x sigfield subsets x (lock flags, witness flags) x committed / surrogate scripts for: single-sig both layouts, m-of-n multisig, script-hash, graftroot key / surrogate "
         "paths, graftap key / script paths: the sibling builder's witness unlocks; a witness by another key, over different covered sigfields, with a non-permitted flag, for a different "
@@ -138,6 +138,38 @@ def run(ctx: Ctx) -> Result:
             for pre in (b'', T.make_single_sig_witness(seeds[3], sf, wf).bytes):
                 ok, v = B.auth([pre + wb, locks['scripthash'].bytes], sf)
                 if ok: B.viol(f'scripthash lock accepts a witness for a different script ({other.bytes.hex()[:20]})', {**inp, 'scripts': [(pre + wb).hex(), locks['scripthash'].bytes.hex()], 'cache': vmrun.cache_str(sf, False)}, False, v)
+        # everything a stranger B can put on the stack from public data and his own key - his signature, his key, the holder's key,
+        # in every arrangement of up to three items - opens neither single-signature layout of the holder's locks
+        import itertools as _it
+        from nacl.signing import SigningKey as _SK
+        sigB = _SK(seeds[3]).sign(G.ref_message(sf, int(wf, 16))).signature + (bytes.fromhex(wf) if wf != '00' else b'')
+        pool = [('sigB', sigB), ('pubB', pks[3]), ('pubA', pks[0])]
+        for ln in (1, 2, 3):
+            for combo in _it.product(pool, repeat=ln):
+                wbytes = b''.join(G.push(x) for _, x in combo)
+                for lk in ('single', 'single2'):
+                    res.note_case(('stranger-stack', lk, tuple(nm for nm, _ in combo), tuple(seeds)))
+                    ok, v = B.auth([wbytes, locks[lk].bytes], sf, record=False)
+                    if ok: B.viol(f'{lk} lock of key A opened by a stranger\'s stack [' + ', '.join(nm for nm, _ in combo) + '] (bottom to top)', {**inp, 'scripts': [wbytes.hex(), locks[lk].bytes.hex()], 'cache': vmrun.cache_str(sf, False)}, False, v)
+        # committed / surrogate scripts whose length sits on a push-size boundary (255 / 256 / 257 bytes)
+        if it % 5 == 0:
+            for ln in (255, 256, 257):
+                body_ = b'\x01' + (b'' if ln % 2 else b'\x02\xff\x06'); body_ += b'\x01\x06' * ((ln - len(body_)) // 2)
+                big = T.Script('', body_)
+                if len(big.bytes) != ln: continue
+                res.note_case(('boundary-script', ln, tuple(seeds)))
+                try:
+                    lk_ = T.make_scripthash_lock(big); w_ = T.make_scripthash_witness(big)
+                    ok, v = B.auth([w_.bytes, lk_.bytes], sf, record=False)
+                    if not ok: B.viol(f'script-hash lock of a {ln}-byte script rejects its own witness', {**inp, 'scripts': [w_.bytes.hex(), lk_.bytes.hex()], 'cache': vmrun.cache_str(sf, False)}, True, v)
+                    w2_ = T.make_graftroot_witness_surrogate(seeds[0], big)
+                    ok, v = B.auth([w2_.bytes, locks['graftroot'].bytes], sf, record=False)
+                    if not ok: B.viol(f'graftroot lock rejects the holder\'s {ln}-byte surrogate', {**inp, 'scripts': [w2_.bytes.hex(), locks['graftroot'].bytes.hex()], 'cache': vmrun.cache_str(sf, False)}, True, v)
+                    w3_ = T.make_graftap_witness_scriptspend(seeds[0], big)
+                    ok, v = B.auth([w3_.bytes, locks['graftap'].bytes], sf, record=False)
+                    if not ok: B.viol(f'graftap lock rejects the holder\'s {ln}-byte surrogate', {**inp, 'scripts': [w3_.bytes.hex(), locks['graftap'].bytes.hex()], 'cache': vmrun.cache_str(sf, False)}, True, v)
+                except BaseException as e:
+                    B.viol(f'a builder raised for a committed / surrogate script of {ln} bytes', {**inp, 'script_length': ln}, 'lock and witness', type(e).__name__ + ': ' + str(e)[:100])
         foreign = T.make_graftroot_witness_surrogate(seeds[3], T.Script.from_src('true'))
         ok, v = B.auth([foreign.bytes, locks['graftroot'].bytes], sf)
         if ok: B.viol('graftroot lock runs a surrogate signed by another key', {**inp, 'scripts': [foreign.bytes.hex(), locks['graftroot'].bytes.hex()], 'cache': vmrun.cache_str(sf, False)}, False, v)
